@@ -70,8 +70,15 @@ def field_short(cls):
 
 
 def make_q(q):
+    """[[lookup, value], ...] -> Q; a value {'set': [...]} stands for a
+    Python set (JSON has none)."""
     from django.db.models import Q
-    return Q(**{k: v for k, v in q})
+
+    def val(v):
+        if isinstance(v, dict) and 'set' in v:
+            return set(v['set'])
+        return v
+    return Q(**{k: val(v) for k, v in q})
 
 
 def F(name, ftype, **attrs):
